@@ -35,6 +35,9 @@ Definition ores_eqb (o : ores) (r : res jext) : bool :=
 Definition owner_obs := list (name * bool * option (list name)).
 Definition oo_eqb : owner_obs -> owner_obs -> bool :=
   list_eqb (pair_eqb (pair_eqb N.eqb Bool.eqb) (option_eqb (list_eqb N.eqb))).
+Definition held_obs := list (name * option nat * option (list name)).
+Definition ho_eqb : held_obs -> held_obs -> bool :=
+  list_eqb (pair_eqb (pair_eqb N.eqb (option_eqb Nat.eqb)) (option_eqb (list_eqb N.eqb))).
 (* name, version and requirement set of an API-level extension *)
 Definition api_obs := (name * version * list name)%type.
 
@@ -47,7 +50,12 @@ Inductive case :=
 (* several extensions (distinct names) and definition objects added to them, possibly the same object to
    several extensions; per extension: document, document after a round trip, owners *)
 | CShared (hdrs : list (name * version * list name)) (objs : list jcmd) (prog : list (nat * nat))
-          (obs : list (ores * ores * owner_obs)).
+          (obs : list (ores * ores * owner_obs))
+(* the same with object identity: the Extension objects may carry the SAME name; per Extension object:
+   document, document after a round trip, and per operation it holds (key, index of the Extension object
+   that `get_extension()` returns, None if it is none of them or raises; requirement set) *)
+| CWorld (hdrs : list (name * version * list name)) (objs : list jcmd) (prog : list (nat * nat))
+         (obs : list (ores * ores * held_obs)).
 
 (* ---- model side ---- *)
 Definition m_to_serial : extension json json json -> res jext := to_serial jid jid.
@@ -86,6 +94,17 @@ Definition corr (c : case) : bool :=
                  ores_eqb (fst (fst (fst oe))) s && ores_eqb (snd (fst (fst oe))) (bind s m_reload) &&
                  oo_eqb (snd (fst oe)) (m_owners (snd oe)))
               (combine obs (w_exts w))
+  | CWorld hdrs objs prog obs =>
+      (* the heap model (identity) and, for the documents, the value model as well *)
+      let w := hrun (new_heapw hdrs (map obj_of_cmd objs)) prog in
+      let vw := m_world hdrs objs prog in
+      Nat.eqb (length obs) (length (hw_exts w)) && Nat.eqb (length obs) (length (w_exts vw)) &&
+      forallb (fun ox : (ores * ores * held_obs) * (rext * extension json json json) =>
+                 let s := m_to_serial (view (hw_heap w) (fst (snd ox))) in
+                 ores_eqb (fst (fst (fst ox))) s && ores_eqb (snd (fst (fst ox))) (bind s m_reload) &&
+                 ores_eqb (fst (fst (fst ox))) (m_to_serial (snd (snd ox))) &&
+                 ho_eqb (snd (fst ox)) (held_owners (hw_heap w) (fst (snd ox))))
+              (combine obs (combine (hw_exts w) (w_exts vw)))
   | CDoc _ doc r1 r2 own1 =>
       ores_eqb r1 (m_reload doc) && ores_eqb r2 (bind (m_reload doc) m_reload) &&
       match m_deserialize doc with
@@ -210,6 +229,18 @@ Definition mon (c : case) : bool :=
                  ores_same before after && ores_owner before && owners_ok n own &&
                  match before with OOk s => N.eqb (se_name s) n | _ => false end)
               (combine obs hdrs)
+  | CWorld hdrs objs prog obs =>
+      Nat.eqb (length obs) (length hdrs) &&
+      forallb (fun ioh : nat * ((ores * ores * held_obs) * (name * version * list name)) =>
+                 let '(before, after, own) := fst (snd ioh) in
+                 let '(n, v, reqs) := snd (snd ioh) in
+                 ores_same before after && ores_owner before && held_obs_ok (fst ioh) n own &&
+                 match before with
+                 | OOk s => N.eqb (se_name s) n && version_eqb (se_version s) v &&
+                            seteq_b N.eqb (se_reqs s) reqs && nodupb N.eqb (se_reqs s)
+                 | _ => false
+                 end)
+              (combine (seq 0 (length hdrs)) (combine obs hdrs))
   | CDoc must_load doc r1 r2 own1 =>
       match r1 with
       | OOk s => doc_loadable doc && doc_kept doc s && s_names_owner_b s && ores_same r1 r2 &&
